@@ -1,18 +1,27 @@
 #!/bin/bash
 # Runs the quick tier of each seeded change's own property check on the patched
-# tree (tools/try_patch.sh) and writes seeded/MATRIX.tsv. Evidence files are
-# overwritten by these runs: re-run the checks on the clean tree afterwards.
+# tree (tools/try_patch.sh); optional argument: regex selecting seeds. Logs go to
+# .work_seed_<id>.log; seeded/MATRIX.tsv is rebuilt from all logs present.
+# Evidence files are overwritten by these runs: re-run the checks on the clean
+# tree afterwards.
 cd /verif
-out=seeded/MATRIX.tsv
-echo -e "seed\tproperty\texit\twall_s\truns_with_findings\tfirst_finding" > $out
 for d in seeded/C*/; do
   s=$(basename $d); id=${s:0:3}
   [ -n "$1" ] && [[ ! "$s" =~ $1 ]] && continue
+  [ "$1" = "--rebuild" ] && continue
   t0=$(date +%s)
   tools/try_patch.sh $d/patch.diff $id quick > .work_seed_$s.log 2>&1
-  t1=$(date +%s)
-  rc=$(grep -o '^exit=[0-9]*' .work_seed_$s.log | cut -d= -f2)
-  runs=$(grep -o '^  run=[A-Za-z0-9-]* ' .work_seed_$s.log | sort -u | sed 's/  run=//' | tr -d ' ' | paste -sd,)
-  first=$(grep -m1 '^  run=' .work_seed_$s.log | sed 's/^  run=[^ ]* //' | cut -c1-110)
-  echo -e "$s\t$id\t$rc\t$((t1-t0))\t$runs\t$first" | tee -a $out
+  echo "wall_s=$(( $(date +%s)-t0 ))" >> .work_seed_$s.log
+  tail -2 .work_seed_$s.log | tr '\n' ' '; echo $s
+done
+out=seeded/MATRIX.tsv
+echo -e "seed\tproperty\texit\twall_s\truns_with_findings\tfirst_finding" > $out
+for d in seeded/C*/; do
+  s=$(basename $d); id=${s:0:3}; l=.work_seed_$s.log
+  [ -f $l ] || continue
+  rc=$(grep -o '^exit=[0-9]*' $l | cut -d= -f2)
+  w=$(grep -o '^wall_s=[0-9]*' $l | cut -d= -f2)
+  runs=$(grep -o '^  run=[A-Za-z0-9-]* ' $l | sort -u | sed 's/  run=//' | tr -d ' ' | paste -sd,)
+  first=$(grep -m1 '^  run=' $l | sed 's/^  run=[^ ]* //' | sed 's/  (.*//' | cut -c1-160)
+  echo -e "$s\t$id\t$rc\t$w\t$runs\t$first" >> $out
 done
